@@ -90,6 +90,14 @@ func init() {
 			RealStub: realStubL1,
 		},
 		PropertyPlan{
+			ID: "C03", Level: "exploration",
+			Families: []FamilyPlan{{Name: "c03", Quick: 240, Thorough: 8000, Chunk: 4, SeedTimeout: 150 * time.Second}},
+			Rule:     "each run = one OS process running the real program (cobra root command, YAML loading, validation, RunDaemon with its actor group) in a bubble: 1-2 fans (hwmon with original mode 0/1/2/3/5 and original PWM 0..254, with/without enable file; file; cmd), 20% through the real analysis; 1-3 SIGTERM/SIGINT deliveries injected with os/signal's non-blocking-send semantics during start-up wait, analysis, first-second delay, between ticks, at a decision index inside a cycle, at the same instant, and after the Nth restore write; 45% of the runs make restore-phase mode/PWM writes fail (EINVAL, EIO) or be silently ignored, 8% have a stuck mode. Oracle after the process ended: orderly exit (no Go panic, no signal-delivery panic, ends within 60 virtual s) and per touched fan (mode==original and original!=1) or PWM file==255. distinct = scenario hash; non-trivial = at least one touched fan judged",
+			Probes:   []string{"fans-judged", "multi-signal-run", "signals-injected"},
+			Assume:   []string{"a run in which every attempted write of 255 was itself made to fail by the fault plan is not judged", "signal delivery is modelled by the hook with os/signal's select-send semantics incl. the panic on a closed, still registered channel", "signals arriving before the daemon registered its channel are not judged"},
+			RealStub: "real: cmd (cobra root command), configuration loading via viper from generated YAML, Validate, internal.RunDaemon incl. actor group and signal actor, hwmon discovery, controllers, monitors, persistence; stub/model: libsensors (stand-in), drivers/fans/temperatures (world), clock (synctest), scheduling at seams (kernel), OS signal delivery (hook), TCP servers disabled",
+		},
+		PropertyPlan{
 			ID: "C12", Level: "exploration",
 			Families: []FamilyPlan{{Name: "c12", Quick: 240, Thorough: 8000, Chunk: 10}},
 			Rule:     "each run = closed loop with full-range fans (min 0, max 255) and the direct algorithm, where the request equals the curve value; maps from the configuration (sparse, plateaus) or from the real sweep against a quantising driver; every cycle compares the write (or the decision not to write) with the reference nearest-supported-input computation. distinct = scenario hash; non-trivial = at least one write judged",
